@@ -24,6 +24,7 @@ use std::io::BufRead;
 use std::path::{Path, PathBuf};
 use std::time::Duration;
 
+mod fanout;
 mod keepalive;
 mod reqrep;
 mod server;
@@ -341,7 +342,7 @@ async fn cmd_pubsub(args: Vec<String>) -> Result<()> {
         let certs = env.certs.clone();
         let addr = env.server.addr;
         handles.push(tokio::spawn(async move {
-            let client = connect_client(addr, &certs, BackoffStrategy::constant().with_max_attempts(0)).await?;
+            let mut client = connect_client(addr, &certs, BackoffStrategy::constant().with_max_attempts(0)).await?;
             let mut k = w;
             while k < cases.len() {
                 let run = k as u64 + 1;
@@ -355,13 +356,20 @@ async fn cmd_pubsub(args: Vec<String>) -> Result<()> {
                 }
                 // a private log per case keeps its events contiguous in the trace
                 let clog = EvLog::new(Box::new(std::io::sink()));
+                // a case that does not finish is reported, never waited for
+                let limit = Duration::from_secs(120);
                 let r = match run % 3 {
-                    0 => pubsub_case::<StringCodec, String>(&client, &clog, run, &case, StringCodec, comp, &topic, &mut rng, big).await,
-                    1 => pubsub_case::<BytesCodec, Vec<u8>>(&client, &clog, run, &case, BytesCodec, comp, &topic, &mut rng, big).await,
-                    _ => pubsub_case::<BincodeCodec<Sample>, Sample>(&client, &clog, run, &case, BincodeCodec::default(), comp, &topic, &mut rng, big).await,
+                    0 => tokio::time::timeout(limit, pubsub_case::<StringCodec, String>(&client, &clog, run, &case, StringCodec, comp, &topic, &mut rng, big)).await,
+                    1 => tokio::time::timeout(limit, pubsub_case::<BytesCodec, Vec<u8>>(&client, &clog, run, &case, BytesCodec, comp, &topic, &mut rng, big)).await,
+                    _ => tokio::time::timeout(limit, pubsub_case::<BincodeCodec<Sample>, Sample>(&client, &clog, run, &case, BincodeCodec::default(), comp, &topic, &mut rng, big)).await,
                 };
-                if let Err(e) = r {
-                    clog.emit("harness_error", json!({"err": e.to_string()}));
+                match r {
+                    Ok(Ok(())) => {}
+                    Ok(Err(e)) => clog.emit("harness_error", json!({"err": e.to_string()})),
+                    Err(_) => {
+                        clog.emit("hung", json!({"after_s": 120, "case": case}));
+                        client = connect_client(addr, &certs, BackoffStrategy::constant().with_max_attempts(0)).await?;
+                    }
                 }
                 log.append_block(&clog);
                 k += par;
@@ -393,6 +401,7 @@ fn main() {
             Some("server") => server::cmd_server(args.clone()).await,
             Some("stall") => server::cmd_stall(args.clone()).await,
             Some("tls") => server::cmd_tls(args.clone()).await,
+            Some("fanout") => fanout::cmd_fanout(args.clone()).await,
             Some("keepalive") => keepalive::cmd_keepalive(args.clone()).await,
             _ => Err(anyhow!("usage: e2e pubsub|reqrep|server|stall|tls|keepalive --out T ...")),
         }
